@@ -2,7 +2,7 @@
 //! as Visual Studio Code.
 
 use crossbeam_channel::{Receiver, Sender};
-use log::{debug, trace};
+use log::{debug, error, trace};
 use lsp_server::{Connection, ExtractError, Message, RequestId};
 use lsp_types::{
     notification::{self, Notification, PublishDiagnostics},
@@ -139,7 +139,11 @@ impl<'a> LspServer<'a> {
             Ok(_params) => {
                 return request::Shutdown::METHOD;
             }
-            Err(req) => req,
+            Err(Some(req)) => req,
+            Err(None) => {
+                self.send_invalid_params(req_id);
+                return "";
+            }
         };
         let _request = match Self::cast_request::<request::SemanticTokensFullRequest>(req) {
             Ok(params) => {
@@ -165,7 +169,11 @@ impl<'a> LspServer<'a> {
 
                 return request::SemanticTokensFullRequest::METHOD;
             }
-            Err(req) => req,
+            Err(Some(req)) => req,
+            Err(None) => {
+                self.send_invalid_params(req_id);
+                return "";
+            }
         };
 
         // Every request must be answered: report methods that are not implemented.
@@ -178,7 +186,13 @@ impl<'a> LspServer<'a> {
         ""
     }
 
-    fn cast_request<T>(request: lsp_server::Request) -> Result<T::Params, lsp_server::Request>
+    /// Extracts the parameters of a request of the type.
+    ///
+    /// Returns the request when it is of another method, and `None` when it is
+    /// of this method but its parameters do not have the expected shape.
+    fn cast_request<T>(
+        request: lsp_server::Request,
+    ) -> Result<T::Params, Option<lsp_server::Request>>
     where
         T: lsp_types::request::Request,
         T::Params: DeserializeOwned,
@@ -187,9 +201,22 @@ impl<'a> LspServer<'a> {
             .extract(T::METHOD)
             .map(|val| val.1)
             .map_err(|e| match e {
-                ExtractError::MethodMismatch(n) => n,
-                err @ ExtractError::JsonError { .. } => panic!("Invalid request: {err:?}"),
+                ExtractError::MethodMismatch(n) => Some(n),
+                ExtractError::JsonError { method, error } => {
+                    error!("Invalid parameters for {}: {}", method, error);
+                    None
+                }
             })
+    }
+
+    /// Answers a request whose parameters could not be read.
+    fn send_invalid_params(&self, request_id: RequestId) {
+        let response = lsp_server::Response::new_err(
+            request_id,
+            lsp_server::ErrorCode::InvalidParams as i32,
+            "Invalid parameters".to_owned(),
+        );
+        self.sender.send(Message::Response(response)).unwrap()
     }
 
     fn send_response<R>(&self, request_id: RequestId, params: R::Result)
@@ -285,7 +312,12 @@ impl<'a> LspServer<'a> {
             .extract(T::METHOD)
             .map_err(|e| match e {
                 ExtractError::MethodMismatch(n) => n,
-                err @ ExtractError::JsonError { .. } => panic!("Invalid notification: {err:?}"),
+                ExtractError::JsonError { method, error } => {
+                    // A notification cannot be answered: one whose parameters cannot be
+                    // read is logged and has no effect (it matches no later method).
+                    error!("Invalid parameters for {}: {}", method, error);
+                    lsp_server::Notification::new(String::new(), ())
+                }
             })
     }
 
